@@ -37,6 +37,7 @@ import (
 	elysapp "github.com/elys-network/elys/app"
 	ammtypes "github.com/elys-network/elys/x/amm/types"
 	atypes "github.com/elys-network/elys/x/assetprofile/types"
+	ctypes "github.com/elys-network/elys/x/commitment/types"
 	oracletypes "github.com/elys-network/elys/x/oracle/types"
 	ptypes "github.com/elys-network/elys/x/parameter/types"
 )
@@ -61,6 +62,10 @@ type Scenario struct {
 	FundAmount       string   `json:"fund_amount"`
 	OracleLifeBlocks uint64   `json:"oracle_life_blocks"`
 	OracleExpirySecs uint64   `json:"oracle_expiry_secs"`
+	VestBlocks       int64    `json:"vest_blocks"`       // Eden->ELYS vesting length in blocks
+	VestNowFactor    int64    `json:"vest_now_factor"`
+	MaxVestings      int64    `json:"max_vestings"`
+	ClaimedEden      string   `json:"claimed_eden"`      // initial claimed Eden/EdenB per user (ledger only)
 }
 
 func DefaultScenario() Scenario {
@@ -70,6 +75,10 @@ func DefaultScenario() Scenario {
 		FundAmount:       "1000000000000000",
 		OracleLifeBlocks: 1000000,
 		OracleExpirySecs: 86400 * 365,
+		VestBlocks:       40,
+		VestNowFactor:    90,
+		MaxVestings:      4,
+		ClaimedEden:      "5000000000",
 	}
 }
 
@@ -116,6 +125,7 @@ type World struct {
 	homeDir  string
 	// BlockErr is set when FinalizeBlock/Commit returned an error or panicked.
 	BlockErr error
+	BlockErrStack string
 }
 
 func GovAddr() string { return authtypes.NewModuleAddress(govtypes.ModuleName).String() }
@@ -184,6 +194,10 @@ func (w *World) buildGenesis() ([]byte, []byte) {
 			CommitEnabled: true, WithdrawEnabled: true,
 			Authority: GovAddr(),
 		})
+	}
+	for _, d := range []string{ptypes.Eden, ptypes.EdenB} {
+		genAP.EntryList = append(genAP.EntryList, atypes.Entry{BaseDenom: d, Denom: d, Decimals: 6, DisplayName: d,
+			CommitEnabled: true, WithdrawEnabled: true, Authority: GovAddr()})
 	}
 	gs[atypes.ModuleName] = cdc.MustMarshalJSON(genAP)
 
@@ -257,6 +271,19 @@ func (w *World) buildGenesis() ([]byte, []byte) {
 	oGen.Params.LifeTimeInBlocks = sc.OracleLifeBlocks
 	oGen.Params.PriceExpiryTime = sc.OracleExpirySecs
 	gs[oracletypes.ModuleName] = cdc.MustMarshalJSON(oGen)
+
+	// commitment: short vesting schedule, vest-now enabled, users start with claimed Eden/EdenB
+	cGen := ctypes.DefaultGenesis()
+	cGen.Params.EnableVestNow = true
+	cGen.Params.VestingInfos = []ctypes.VestingInfo{{BaseDenom: ptypes.Eden, VestingDenom: ptypes.Elys, NumBlocks: sc.VestBlocks,
+		VestNowFactor: sdkmath.NewInt(sc.VestNowFactor), NumMaxVestings: sc.MaxVestings}}
+	if ce, ok := sdkmath.NewIntFromString(sc.ClaimedEden); ok && ce.IsPositive() {
+		for _, a := range w.Accounts {
+			cGen.Commitments = append(cGen.Commitments, &ctypes.Commitments{Creator: a.Addr.String(),
+				Claimed: sdk.NewCoins(sdk.NewCoin(ptypes.Eden, ce), sdk.NewCoin(ptypes.EdenB, ce))})
+		}
+	}
+	gs[ctypes.ModuleName] = cdc.MustMarshalJSON(cGen)
 
 	bz, err := json.Marshal(gs)
 	if err != nil {
@@ -411,6 +438,7 @@ func (w *World) EndBlock(gap time.Duration) *BlockRecord {
 		})
 		if err != nil {
 			w.BlockErr = fmt.Errorf("FinalizeBlock height %d: %w", hdr.Height, err)
+			w.BlockErrStack = fmt.Sprintf("%+v", err)
 			return
 		}
 		if _, err = w.App.Commit(); err != nil {
